@@ -5,6 +5,9 @@ MC : SvgPathLaws  - the algebraic identities a path minifier relies on (abs<->re
                     against the path interpreter of SvgPath in every interpreter state reachable
                     by <= MaxN commands over every command letter (both cases), with the side
                     conditions under which they keep what a FOLLOWING smooth command reflects.
+     SvgPathDesign- design model: the rewrite decisions of copyInstruction (its own cursor and control
+                    point memory) refine the interpreter step by step; the three decision-level known
+                    findings are guards, and TLC finds their counterexamples when a guard is lifted.
      SvgPathGen   - token-level generator automaton of path data (carries the interpreter state);
                     exhaustive to MaxTok tokens, random walks (-simulate) to 120 tokens.
      SvgDocGen    - token-level generator automaton of documents (nesting, attributes, text).
@@ -31,7 +34,7 @@ PID = 'C05'
 EXCLUSIONS = {
     'z-draw': 'closepath directly followed by a drawing command (anything but moveto/closepath)',
     'deg-smooth': 'smooth curveto directly after a curve whose control points coincide exactly with its end points',
-    'zeroL-smooth': 'smooth curveto after a zero-length lineto that directly follows a curve',
+    'zeroL-smooth': 'lineto (or curve that simplifies to a line) of length zero directly after a curve',
     'exp100': 'number whose shortest form has an exponent that ends in 00 (1e100)',
     'prefixed-attr': 'xlink: / xml: attributes',
     'text-join': 'blank at the edge of character data inside a text element next to a child element',
@@ -302,7 +305,8 @@ ATTRS = {
     12: ('d', PATHS),
     13: ('transform', ['translate(10,20)', 'rotate(45 1 1)', ' scale( 2 )', 'matrix(1 0 0 1 0 0)', 'translate(0.50)']),
     14: ('class', ['a b', '  a   b ', 'c']),
-    15: ('style', ['fill:red', 'fill: red; stroke: #ff0000;', 'stroke-width:0.50px', '']),
+    15: ('style', ['fill:red', 'fill: red; stroke: #ff0000;', 'stroke-width:0.50px', '', 'fill:#FFFFFF;stroke:black;opacity:0.50',
+                   ' stroke-width : 0px ; fill : white ', 'stop-color:#aabbcc;stop-opacity:1.0', 'display:none', 'FILL:tan;stroke-width:1e1']),
     16: ('ed:attr', ['1', 'x y', '#ffffff']),
     17: ('xlink:href', ['#a', '#b1']),
     18: ('xml:space', ['preserve', 'default']),
@@ -551,6 +555,9 @@ def generate(ctx):
         laws=lambda: vlib.tlc(ctx, 'SvgPathLaws', 'SvgPathLaws_quick.cfg' if q else 'SvgPathLaws_thorough.cfg',
                               workers=w, heap='4g', timeout=3000),
         laws2=lambda: (vlib.tlc(ctx, 'SvgPathLaws', 'SvgPathLaws_wide.cfg', workers=w, heap='4g', timeout=3000) if not q else None),
+        # design model of the shortener's decisions refines the interpreter (D => A)
+        design=lambda: vlib.tlc(ctx, 'SvgPathDesign', 'SvgPathDesign_quick.cfg' if q else 'SvgPathDesign_thorough.cfg',
+                                workers=w, heap='4g', timeout=3000),
         pb=lambda: vlib.tlc(ctx, 'SvgPathGen', cfg_pb, workers=w, heap='6g', timeout=3000),
         ps=lambda: vlib.tlc(ctx, 'SvgPathGen', cfg_ps, workers=1, simulate='num=%d' % (120 if q else 1500), depth=125,
                             seed=ctx.seed, timeout=1800),
@@ -560,13 +567,13 @@ def generate(ctx):
         ds=lambda: vlib.tlc(ctx, 'SvgDocGen', cfg_ds, workers=1, simulate='num=%d' % (400 if q else 4000), depth=45,
                             seed=ctx.seed, timeout=1800),
     )
-    with ThreadPoolExecutor(max_workers=7) as ex:
+    with ThreadPoolExecutor(max_workers=8) as ex:
         fut = {}
         for k, f in jobs.items():
             fut[k] = ex.submit(f)
             vlib.time.sleep(0.3)        # (vlib.tlc numbers its scratch directories without a lock)
         res = {k: f.result() for k, f in fut.items()}
-    for k in ('laws', 'laws2', 'pb', 'db'):
+    for k in ('laws', 'laws2', 'design', 'pb', 'db'):
         r = res[k]
         if r is None:
             continue
@@ -578,6 +585,8 @@ def generate(ctx):
         if r['errors'] or r['invariant_violations']:
             raise vlib.Infra('simulation (%s) failed: %s' % (k, r['out'][-1500:]))
     ctx.coverage['laws_states'] = res['laws']['distinct'] + (res['laws2']['distinct'] if res['laws2'] else 0)
+    ctx.coverage['design_states'] = res['design']['distinct']
+    ctx.coverage['design_transitions'] = res['design']['generated']
     pex = tlc_json_lines(res['pb']['out'])
     ctx.coverage['path_generator_states'] = res['pb']['distinct']
     ctx.coverage['paths_enumerated'] = len(pex)
@@ -595,6 +604,39 @@ def generate(ctx):
         raise vlib.Infra('a generator produced nothing')
     vlib.log('C05 generate: %.1fs (%s)' % (vlib.time.time() - t0, ', '.join('%s %.0fs' % (k, r['wall']) for k, r in res.items() if r)))
     return pex, psim, dex, dsim
+
+
+def design_sensitivity(ctx):
+    """Self-test of the design model (thorough tier): with one guard lifted TLC must find the
+    decision-level counterexample of the corresponding known finding.  Never a verdict: a model that
+    does not see the defect any more is an infrastructure problem (the model drifted from the code or
+    the defect was fixed - then the guard and the exclusion can go)."""
+    from concurrent.futures import ThreadPoolExecutor
+    names = ['noZ', 'noDeg', 'noZeroL']
+
+    def one(nm):
+        try:
+            return vlib.tlc(ctx, 'SvgPathDesign', 'SvgPathDesign_%s.cfg' % nm, workers=2, heap='3g', timeout=1500)
+        except vlib.Infra:
+            return None
+    with ThreadPoolExecutor(max_workers=3) as ex:
+        futs = []
+        for nm in names:
+            futs.append(ex.submit(one, nm))
+            vlib.time.sleep(0.3)
+        rs = [f.result() for f in futs]
+    out = {}
+    for nm, r in zip(names, rs):
+        if r is None:
+            out[nm] = 'timeout'
+        elif 'Refines' in r['invariant_violations']:
+            out[nm] = 'counterexample found'
+        elif r['completed']:
+            raise vlib.Infra('design model SvgPathDesign_%s.cfg: guard lifted but no counterexample (model drifted)' % nm)
+        else:
+            out[nm] = 'error'
+    ctx.coverage['design_guard_sensitivity'] = out
+    vlib.log('C05 design sensitivity:', out)
 
 
 def repo_cases(ctx):
@@ -662,9 +704,10 @@ def make_cases(ctx):
         mode = 'inline' if ndoc % 3 == 2 else 'standalone'
         add(dict(kind='doc', mode=mode, css=False, gen=True, src=list(render_doc(t, rnd, mode, 3))))
         ndoc += 1
-    for t in dsim:
+    for k, t in enumerate(dsim):
         for mode in ('standalone', 'inline'):
-            add(dict(kind='doc', mode=mode, css=False, gen=True, src=list(render_doc(t, rnd, mode, 1))))
+            # every third walk also with the CSS minifier registered (style attributes are rewritten)
+            add(dict(kind='doc', mode=mode, css=(k % 3 == 0), gen=True, src=list(render_doc(t, rnd, mode, 1))))
     # repository inputs
     rp, rd, files = repo_cases(ctx)
     for s in rp:
@@ -733,7 +776,10 @@ def ident_path(mode, d):
 def ident_doc(c, clause):
     if c.get('relfile'):
         return dict(kind='doc', mode=c['mode'], file=c['relfile'], clause=clause)
-    return dict(kind='doc', mode=c['mode'], src=bytes(c['src']).decode('utf-8', 'replace'), clause=clause)
+    d = dict(kind='doc', mode=c['mode'], src=bytes(c['src']).decode('utf-8', 'replace'), clause=clause)
+    if c.get('css'):
+        d['css'] = True
+    return d
 
 
 def confirm(ctx, exe, cases, lines, why):
@@ -838,6 +884,8 @@ def run(ctx):
                 if len([s for s in samples if s['kind'] == 'doc']) < 2 and e.get('raw') and cases[e['id']].get('src'):
                     samples.append(dict(kind='doc', mode=e['mode'], **{'in': bytes(cases[e['id']]['src']).decode('utf-8', 'replace')[:400],
                                                                        'out': e['raw'][:400]}))
+    if not ctx.quick() and not INCLUDE:
+        design_sensitivity(ctx)
     if why:
         ctx.coverage['rejections'] = len(why)
         ctx.coverage['rejections_reproduced'] = confirm(ctx, exe, cases, lines, why)
@@ -864,14 +912,15 @@ def run(ctx):
         'encoding/xml (Strict) and golang.org/x/net/html are the readers of input and output documents',
         'TLC evaluates spec/SvgPath.tla (grammar, interpreter, PathEq) and spec/SvgDoc.tla; 32-bit fixed point at the '
         'scale of the most precise input number, paths outside that range are checked for grammar only',
-        'precision 0; CSS minifier not registered (style values pass through; C04/C11 judge CSS)',
+        'precision 0; the CSS minifier is registered for a third of the generated documents: style attributes are compared '
+        'declaration by declaration (name, value as length/number/colour), style sheets in style elements are left to C04/C11',
     ]
 
 
 def replay(ctx, obj):
     exe = vlib.build_harness(ctx, 'c05')
     c = obj['case']
-    case = dict(id=0, gen=False, css=False, mode=c['mode'])
+    case = dict(id=0, gen=False, css=bool(c.get('css')), mode=c['mode'])
     if c['kind'] == 'path':
         ps = [x for x in c.get('after', [])] + [c['d']]
         case.update(kind='path', paths=[list(p.encode('latin1')) for p in ps])
@@ -911,7 +960,7 @@ META = dict(
          'attributes disappear.',
     design_ref='DESIGN.md section 4, C05',
     note='Trusted: TLC, spec/SvgPath.tla + SvgDoc.tla as the meaning of path data and of "kept"; encoding/xml and x/net/html as '
-         'readers. CSS inside style is not interpreted (pass-through configuration). Exhaustive only within the token bound; '
+         'readers. Style sheets inside style elements are not interpreted. Exhaustive only within the token bound; '
          'sampled beyond. Constructs of the known findings are excluded from generation (listed in the evidence rule).',
     technique='TLA+ interpreter + generator automata, TLC trace validation of geometry and infoset relations',
 )
